@@ -260,8 +260,8 @@ func specShape(s reqSpec) string {
 	for _, q := range s.Query {
 		qv = append(qv, charClass(q[0])+"="+charClass(q[1]))
 	}
-	return fmt.Sprintf("%s|%s|%s|p=%s|q=%s|h=%s|b=%v|te=%v", s.Mode, s.Method, s.Esc, strings.Join(pathFeatures(s.Path), ","),
-		strings.Join(qv, "&"), strings.Join(hv, ";"), s.BodyLen > 0, s.TEChunked)
+	return fmt.Sprintf("%s|%s|%s|p=%s|q=%s|h=%s|b=%v|te=%v|shift=%d", s.Mode, s.Method, s.Esc, strings.Join(pathFeatures(s.Path), ","),
+		strings.Join(qv, "&"), strings.Join(hv, ";"), s.BodyLen > 0, s.TEChunked, s.ShiftSec)
 }
 
 func c29signerCase(r *vkit.Run, tgt *sigTarget, spec reqSpec) {
@@ -698,6 +698,8 @@ func runC29(tier, replay string) {
 		if w.Witness.Part == "sdk" {
 			c29sdkPart(r, r.Rand(), 0, w.Witness.Key, w.Witness.Style, w.Witness.Meta)
 		} else if w.Witness.Spec != nil {
+			// every run serves requests signed "now" before any other one; keep that history
+			signerRejected(tgt, reqSpec{Mode: modeHashed, Method: "GET", Path: "/bucket/key", Esc: "aws"})
 			c29signerCase(r, tgt, *w.Witness.Spec)
 		}
 		if reported.Load() > 0 {
@@ -715,6 +717,7 @@ func runC29(tier, replay string) {
 		{Mode: modeHashed, Method: "GET", Path: "/bucket", Esc: "aws", Query: [][2]string{{"X-Upper", "1"}, {"é", "2"}}},
 		{Mode: modeUnsigned, Method: "GET", Path: "/bucket", Esc: "aws", Query: [][2]string{{"b", "file"}, {"b", "|"}}},
 		{Mode: modePresign, Method: "GET", Path: "/bucket/key", Esc: "aws", Query: [][2]string{{"日", ""}}, Expires: 900},
+		{Mode: modePresign, Method: "GET", Path: "/bucket/yesterday", Esc: "aws", Expires: 604800, ShiftSec: -86400},
 		{Mode: modePresign, Method: "GET", Path: "/bucket/key", Esc: "aws", Headers: [][2]string{{"x-amz-expected-bucket-owner", "b"}, {"x-amz-expected-bucket-owner", "a"}}, Expires: 900},
 	} {
 		r.Count("pinned_cases", 1)
@@ -731,6 +734,20 @@ func runC29(tier, replay string) {
 			spec.Esc = "go"
 		case i%25 == 19:
 			spec.Esc = "go-double"
+		}
+		// signing instants other than "this very second": a presigned URL is used while it is
+		// valid (hours or days after it was produced, i.e. usually on another UTC day than the
+		// requests around it), and clocks of clients differ by a minute
+		switch {
+		case spec.Mode == modePresign && i%3 == 0:
+			spec.ShiftSec, spec.Expires = vkit.Pick(rg, []int64{-86400, -3 * 86400, -6 * 86400}), 604800
+			r.Count("presigned_urls_signed_on_an_earlier_day", 1)
+		case spec.Mode == modePresign && i%3 == 1:
+			spec.ShiftSec, spec.Expires = -3600, 7200
+			r.Count("presigned_urls_signed_an_hour_ago", 1)
+		case spec.Mode != modePresign && i%5 == 0:
+			spec.ShiftSec = vkit.Pick(rg, []int64{-60, 60})
+			r.Count("requests_signed_with_one_minute_clock_difference", 1)
 		}
 		if i < 4 {
 			r.Sample(spec)
